@@ -6,8 +6,13 @@ import (
 	"verif/harness/c03/shapes/s1"
 	"verif/harness/c03/shapes/s2"
 	"verif/harness/c03/shapes/s3"
+	"verif/harness/c03/shapes/s4"
+	"verif/harness/c03/shapes/s5"
+	"verif/harness/c03/shapes/s6"
+	"verif/harness/c03/shapes/s7"
+	"verif/harness/c03/shapes/s8"
 )
 
 func All() []*rx.Family {
-	return []*rx.Family{s1.Family(), s2.Family(), s3.Family()}
+	return []*rx.Family{s1.Family(), s2.Family(), s3.Family(), s4.Family(), s5.Family(), s6.Family(), s7.Family(), s8.Family()}
 }
